@@ -23,7 +23,7 @@ Definition Cmp (maxttl : Z) (m : kvmap) (now : Z) (rh : list op) (lost : list Z)
     (lookup k m = None /\ (ttl_dur maxttl ttl <= el \/ In k lost)).
 
 Definition neutral (o : op) : Prop :=
-  match o with OGet _ | OCleanup | OKeys => True | _ => False end.
+  match o with OGet _ | OCleanup | OKeys | OStop => True | _ => False end.
 
 Lemma last_set_neutral o rh k a : neutral o -> last_set (o :: rh) k a = last_set rh k a.
 Proof. destruct o; cbn [neutral last_set]; tauto. Qed.
@@ -235,7 +235,7 @@ Qed.
 Lemma step_SInv maxttl s rh o :
   SInv maxttl s rh -> SInv maxttl (fst (step maxttl s o)) (o :: rh).
 Proof.
-  unfold SInv. intro H. destruct o as [k v ttl|k|k| | |d|]; cbn [step].
+  unfold SInv. intro H. destruct o as [k v ttl|k|k| | |d| |]; cbn [step].
   - destruct (set maxttl s k v ttl) as [s'|] eqn:Hs; cbn [fst].
     + apply set_some in Hs as [Hpos ->]. cbn [smap snow]. apply Snd_set; assumption.
     + apply set_none in Hs. apply Snd_set_rejected; assumption.
@@ -246,12 +246,13 @@ Proof.
   - cbn [fst reset smap snow]. apply Snd_reset.
   - cbn [fst advance smap snow]. apply Snd_advance. exact H.
   - cbn [fst]. apply Snd_neutral; [exact I | exact H].
+  - cbn [fst]. apply Snd_neutral; [exact I | exact H].
 Qed.
 
 Lemma step_SInv2 maxttl s rh o :
   op_forward o = true -> SInv2 maxttl s rh -> SInv2 maxttl (fst (step maxttl s o)) (o :: rh).
 Proof.
-  unfold SInv2. intros Hf H. destruct o as [k v ttl|k|k| | |d|]; cbn [step].
+  unfold SInv2. intros Hf H. destruct o as [k v ttl|k|k| | |d| |]; cbn [step].
   - destruct (set maxttl s k v ttl) as [s'|] eqn:Hs; cbn [fst].
     + apply set_some in Hs as [Hpos ->]. cbn [smap snow].
       change (@nil Z) with (removeZ k []). apply Cmp_set; assumption.
@@ -261,6 +262,7 @@ Proof.
   - cbn [fst cleanup smap snow]. apply Cmp_neutral; [exact I|]. apply Cmp_cleanup. exact H.
   - cbn [fst reset smap snow]. apply Cmp_reset.
   - cbn [fst advance smap snow]. cbn [op_forward] in Hf. apply Cmp_advance; [lia | exact H].
+  - cbn [fst]. apply Cmp_neutral; [exact I | exact H].
   - cbn [fst]. apply Cmp_neutral; [exact I | exact H].
 Qed.
 
@@ -407,7 +409,7 @@ Lemma step_obs_ok maxttl s rh o :
   obs_ok true maxttl rh o (snd (step maxttl s o)) = true.
 Proof.
   unfold SInv, SInv2. intros H1 H2.
-  destruct o as [k v ttl|k|k| | |d|]; cbn [step]; try reflexivity.
+  destruct o as [k v ttl|k|k| | |d| |]; cbn [step]; try reflexivity.
   - destruct (set maxttl s k v ttl) as [s'|] eqn:Hs; cbn [snd obs_ok]; unfold accepted.
     + apply set_some in Hs as [Hpos _]. lia.
     + apply set_none in Hs. lia.
